@@ -151,7 +151,12 @@ func exec(c px.Context, op string, args []sx.Sexp) core.Result {
 			heads := lat.Head(a) + "-" + lat.Head(b) + "-" + lat.Head(cc)
 			class := "nontrans-" + heads
 			sfh := func(x, y lat.Ty) bool { return lat.ContainsK(x, "struct") && lat.ContainsK(y, "hash") }
+			defCall := func(t lat.Ty) bool { return t.K == "call" && len(t.Ts) == 0 }
 			switch {
+			case lat.Contains(b, defCall) && lat.ContainsK(a, "call") && !lat.Contains(a, defCall):
+				// known finding C03-trans-callable-top: the default Callable (all three parts absent) accepts every Callable, and is accepted by
+				// a Callable that constrains only its return type, which does not accept what the default accepts
+				class = "nontrans-callable-top"
 			case sfh(a, b) || sfh(b, cc):
 				class = "nontrans-sfh" // the permanent counterexample: a Struct accepts a Hash by specification
 			case lat.Contains(b, zeroTuple) || lat.Contains(cc, zeroTuple):
@@ -254,7 +259,7 @@ func shuffled(lg *lat.Gen, t lat.Ty) lat.Ty {
 }
 
 func gen(g *core.G) {
-	lg := &lat.Gen{R: g.Rng, NoUnit: true}
+	lg := &lat.Gen{R: g.Rng, NoUnit: true, Call: true}
 	u1, u2 := lat.Universe(1), lat.Universe(2)
 	pick := func(ts []lat.Ty) lat.Ty { return ts[g.Rng.Intn(len(ts))] }
 	s := func(t lat.Ty) string { return t.String() }
@@ -310,6 +315,27 @@ func gen(g *core.G) {
 					g.Emit("trans " + s(a) + " " + s(b) + " " + s(cc))
 				}
 			}
+		}
+	}
+	// (ii-c) the Callable rule: every pair of the 60 Callables over 5 parameter lists x 4 return types x 3 blocks (acceptance, equality) and a
+	// sample of the triples (thorough: all 216 000)
+	cus := lat.CallableUniverse()
+	for _, a := range cus {
+		for _, b := range cus {
+			g.Emit("asg " + s(a) + " " + s(b))
+			g.Emit("eq " + s(a) + " " + s(b))
+			for _, cc := range cus {
+				if g.Thorough() || g.Rng.Intn(60) == 0 {
+					g.Emit("trans " + s(a) + " " + s(b) + " " + s(cc))
+				}
+			}
+		}
+	}
+	// the shape of the known finding C03-trans-callable-top, always: a Callable that constrains only its return type, the default, any other
+	for _, cc := range cus {
+		for _, r := range []lat.Ty{lat.Atom("any"), lat.Opt(lat.Atom("any")), lat.Atom("str")} {
+			r := r
+			g.Emit("trans " + s(lat.Call(nil, &r, nil)) + " " + s(lat.Call(nil, nil, nil)) + " " + s(cc))
 		}
 	}
 	// equality across the universe (mostly false; equal-but-different terms are what matters)
